@@ -780,6 +780,10 @@ def molecule_pool(ctx):
         m = molgen.parse(s)
         if m is not None:
             pool.append((f'extra:{s}', normalised(m), [], None))
+    for s in NEUTRALIZE_EXTRA:  # salts / zwitterions for every stripped acid / base pattern (round 5)
+        m = molgen.parse(s)
+        if m is not None:
+            pool.append((f'extra:neut:{s}', normalised(m), [], None))
     corp = [(lab, normalised(m)) for lab, m in molgen.corpus(rng, 80 if ctx.quick else 500)]
     for lab, m in corp:
         pool.append((lab, m, [], None))
@@ -1879,6 +1883,25 @@ def unbalanced_salt(ints):
         return False
 
 
+def donors_left_and_new_acceptor(ints):
+    """the recorded non-idempotence of neutralize: more donors than acceptors (so donors remain) AND the first call created an
+    acceptor that was none before"""
+    try:
+        from chython.algorithms.tautomers._acid import stripped_rules as acid
+        from chython.algorithms.tautomers._base import stripped_rules as base
+        m, _ = wire.ints_to_mol(ints, calc=True)
+        d = {mp[1] for q in acid for mp in q.get_mapping(m, automorphism_filter=False)}
+        a = {mp[1] for q in base for mp in q.get_mapping(m, automorphism_filter=False)}
+        if not (d and a and len(d) > len(a)):
+            return False
+        m.neutralize()
+        d2 = {mp[1] for q in acid for mp in q.get_mapping(m, automorphism_filter=False)}
+        a2 = {mp[1] for q in base for mp in q.get_mapping(m, automorphism_filter=False)}
+        return bool(d2) and bool(a2 - a)
+    except Exception:
+        return False
+
+
 def signature(ints, op, check, ft=False):
     """smallest stable description of what fails where: operation, clause and - where one can be isolated - the rule
     (by its SMARTS) or sub-operation that already breaks the clause on its own."""
@@ -1927,6 +1950,10 @@ def signature(ints, op, check, ft=False):
             return [fr if x == 'fix_resonance' else f'C14/standardize/renumbering/{x}' for x in c]
     if op == 'neutralize' and check == 'renumbering' and not unbalanced_salt(ints):
         return ['C14/neutralize/renumbering/balanced']
+    if op == 'neutralize' and check.startswith('idempotent') and donors_left_and_new_acceptor(ints):
+        # more donors than acceptors: donors remain after the first call and deprotonating an [NH+]-[O-] type zwitterion
+        # turned its anion into an acceptor (Props/C14.lean: neutralize_idempotent_partial proves the complementary class)
+        return ['C14/neutralize/idempotent/unbalanced']
     return [base]
 
 
